@@ -39,6 +39,7 @@ KTOL = 2.5e-13  # kernel-level equality (relative to max(1,|K|)); measured 2.2e-
 ITERS_EXACT = [1, 4, 10, 40, 160]
 ITERS_CONV = [10, 40, 160]
 RATIO_MIN = 12.0
+E2E_RATIO_MIN = 10.0  # measured 13.5-16 (10 -> 40 iterations is not yet asymptotic on the longest paths); first order gives 4
 PAIRS = [[0.03, 0.0125], [0.0125, 0.03], [0.05, 0.005]]
 
 # end to end
@@ -52,7 +53,9 @@ E2E_VARIANTS = {
     "vfns56": dict(init=[10.0, 5], mugrid=[[300.0, 6]]),
     "running": dict(init=[1.65, 4], mugrid=[[100.0, 5]], em_running=True),
     "ffns4-sv": dict(init=[3.0, 4], mugrid=[[50.0, 4]], ratios=[1.0, "inf", "inf"], ref=[91.2, 4], sv="expanded", xif=2.0),
+    "ffns4-svexp": dict(init=[3.0, 4], mugrid=[[50.0, 4]], ratios=[1.0, "inf", "inf"], ref=[91.2, 4], sv="exponentiated", xif=0.5),
 }
+MOMENTS_N3LO = [2.3, 3.5, 6.0]  # the as3 matching elements are 0/0 at N = 2 exactly
 
 
 def _steps(shape, a0, a1, n):
@@ -205,7 +208,10 @@ def eval_e2e(case, res, info):
     (o0, o1), vname = case["order"], case["variant"]
     base = dict(E2E_VARIANTS[vname])
     keep = [i for i, p in enumerate(FLAVOR_PIDS) if p != 22]
-    sig0 = f"e2e/order=({o0},{o1})/{vname}"
+    svm = base.get("sv")
+    # one defect = one signature: a failure of the scale-varied runs is not specific to the order
+    sig0 = f"e2e/sv={svm}" if svm else f"e2e/sv=None/order=({o0},{o1})/{vname}"
+    MOMENTS = MOMENTS_N3LO if o0 == 4 else globals()["MOMENTS"]
 
     def sub(m):
         return m[:, keep][:, :, keep]
@@ -226,8 +232,13 @@ def eval_e2e(case, res, info):
                     res.fail(sig0 + "/nonfinite", f"aem={aem} iterations={n}: non-finite operator")
                     return sig0
                 C[(aem, n)] = (float(np.abs(sub(E) - sub(Q)).max()), sub(E))
+    except NotImplementedError as e:
+        # a clean refusal (e.g. nf = 6 at N3LO) is not a statement about the limit
+        res.nontrivial = False
+        info["refused"] = str(e)
+        return f"e2e/refused/order=({o0},{o1})/{vname}"
     except Exception as e:  # noqa
-        res.fail(sig0 + "/raises", f"{type(e).__name__}: {e}")
+        res.fail(sig0 + "/raises", f"order=({o0},{o1}) variant={vname}: {type(e).__name__}: {e}")
         return sig0
     tab = {f"aem={a:g},n={n}": round(C[(a, n)][0], 12) for a in AEMS for n in E2E_ITERS if (a, n) in C}
     info["table"] = tab
@@ -243,6 +254,12 @@ def eval_e2e(case, res, info):
                 sig0 + "/aem-limit",
                 f"{where}; iterations={n}: |QED(1e-4)-QED(1e-8)| = {d4:.3e}, |QED(1e-6)-QED(1e-8)| = {d6:.3e}: not vanishing linearly in alpha_em",
             )
+    # (C) the distance is small in absolute terms at the finest setting
+    cl = C[(1e-8, E2E_ITERS[-1])][0] / norm
+    info["max_e2e_closest_over_tol"] = cl / E2E_CLOSE
+    if not cl <= E2E_CLOSE:
+        res.fail(sig0 + "/not-close", f"{where}: relative distance {cl:.3e} > {E2E_CLOSE} at alpha_em=1e-8, {E2E_ITERS[-1]} iterations")
+        return f"e2e/order=({o0},{o1})/{vname}"
     # (B) the remainder is the discretisation error: second order in 1/n
     for i in range(len(E2E_ITERS) - 1):
         c0, c1 = C[(1e-8, E2E_ITERS[i])][0], C[(1e-8, E2E_ITERS[i + 1])][0]
@@ -250,17 +267,12 @@ def eval_e2e(case, res, info):
             continue
         r = c0 / c1
         info["max_e2e_inverse_ratio_x16"] = max(info.get("max_e2e_inverse_ratio_x16", 0.0), 16.0 / r)
-        if not r >= RATIO_MIN:
+        if not r >= E2E_RATIO_MIN:
             res.fail(
                 sig0 + "/discretisation",
-                f"{where}: at alpha_em=1e-8 the distance goes {c0:.3e} -> {c1:.3e} for {E2E_ITERS[i]} -> {E2E_ITERS[i+1]} iterations (ratio {r:.2f} < {RATIO_MIN})",
+                f"{where}: at alpha_em=1e-8 the distance goes {c0:.3e} -> {c1:.3e} for {E2E_ITERS[i]} -> {E2E_ITERS[i+1]} iterations (ratio {r:.2f} < {E2E_RATIO_MIN})",
             )
-    # (C) and it is small in absolute terms at the finest setting
-    cl = C[(1e-8, E2E_ITERS[-1])][0] / norm
-    info["max_e2e_closest_over_tol"] = cl / E2E_CLOSE
-    if not cl <= E2E_CLOSE:
-        res.fail(sig0 + "/not-close", f"{where}: relative distance {cl:.3e} > {E2E_CLOSE} at alpha_em=1e-8, {E2E_ITERS[-1]} iterations")
-    return sig0
+    return f"e2e/order=({o0},{o1})/{vname}"
 
 
 def evaluate(case):
@@ -273,7 +285,16 @@ def evaluate(case):
     return res
 
 
-E2E_QUICK = [([1, 1], "vfns45"), ([2, 1], "vfns45"), ([3, 2], "vfns45"), ([2, 2], "ffns3"), ([2, 1], "running"), ([1, 2], "vfns56")]
+E2E_QUICK = [
+    ([1, 1], "vfns45"),
+    ([2, 1], "vfns45"),
+    ([3, 2], "vfns45"),
+    ([2, 2], "ffns3"),
+    ([2, 1], "running"),
+    ([1, 2], "vfns56"),
+    ([2, 1], "ffns4-sv"),
+    ([2, 2], "ffns4-svexp"),
+]
 
 
 def cases(tier):
@@ -313,6 +334,6 @@ def run(ctx):
         "QCD kernel 'for the same coupling steps' = product of singlet.eko_iterate one-step kernels (the step middle is the arithmetic mean of its borders); "
         "the exact QCD non-singlet kernels compose exactly, so the QED ns kernel is compared both stepwise and between the end points",
         f"kernel equality to {KTOL} relative to max(1,|K|); distance to the exact (not iterated) QCD kernels must fall by >= {RATIO_MIN} per x4 steps",
-        f"end to end: [QED(1e-6)-QED(1e-8)] <= [QED(1e-4)-QED(1e-8)]/30, distance at alpha_em=1e-8 falls by >= {RATIO_MIN} per x4 iterations and is <= {E2E_CLOSE} at 160",
+        f"end to end: [QED(1e-6)-QED(1e-8)] <= [QED(1e-4)-QED(1e-8)]/30, distance at alpha_em=1e-8 falls by >= {E2E_RATIO_MIN} per x4 iterations and is <= {E2E_CLOSE} at 160",
         "pure-QCD reference run uses iterate-exact with the same number of iterations",
     ]
